@@ -20,6 +20,14 @@ pub fn utterances(corpus: &Corpus) -> Vec<Utt> {
         Utt { lines: corpus.lines[0..3].to_vec() },
         Utt { lines: if corpus.extras.len() >= 3 { corpus.extras[0..3].to_vec() } else { corpus.lines[40..42].to_vec() } },
         Utt { lines: vec![corpus.lines[7].clone(), corpus.lines[300].clone(), corpus.lines[8].clone(), corpus.lines[1455].clone()] },
+        // silence and pause labels only
+        Utt {
+            lines: {
+                let sil: Vec<String> = corpus.lines.iter().filter(|l| l.contains("-sil+")).take(2).cloned().collect();
+                let pau: Vec<String> = corpus.lines.iter().filter(|l| l.contains("-pau+")).take(1).cloned().collect();
+                vec![sil[0].clone(), pau[0].clone(), sil[sil.len() - 1].clone()]
+            },
+        },
     ]
 }
 
